@@ -293,7 +293,7 @@ theorem nu_wsDrop {w0 w : World} (c : Nat) (h : NU w0 w) : NU w0 (wsDrop w c) :=
   try dsimp only
   split
   · nu_auto
-  · split <;> nu_auto
+  · split <;> (try split) <;> nu_auto
 
 theorem nu_appClose {w0 w : World} (sid : Nat) (discard : Bool) (h : NU w0 w) : NU w0 (appClose w sid discard) := by
   unfold appClose
